@@ -707,11 +707,9 @@ def _j_select(el, p, j):
         return
     else:
         j.lower_bound("select_nb_nonpositive", nb, 1)
-    heads = n + 1 if (comp == "with_cumulative" and n >= 1) else n  # the cumulative listed has size 2
-    if nb > heads:
-        j.viol.append(("select_more_than_listed", nb == heads + 1 and heads == n))
-    elif nb > n:
-        j.open.append("nb_between_list_length_and_head_count")
+    # "more workers than listed": the list entries count, whatever the size of a cumulative worker among them
+    if nb > n:
+        j.viol.append(("select_more_than_listed", nb == n + 1))
     elif nb == n and n >= 1 and _g(p, "nb_workers_to_select") != OMIT:
         j.edges.append("select_more_than_listed")
     if _g(p, "kind") not in (OMIT, "exact", "min", "max"):
